@@ -560,6 +560,25 @@ func (k CmdSem) shell() string {
 	return fmt.Sprintf("rm -f %s && mkdir -p %s && cat %s > %s && echo %s >> .runlog", q(k.Dst), q(filepath.Dir(k.Dst)), strings.Join(srcs, " "), q(k.Dst), q(k.Tag))
 }
 
+// parseHumanStatus extracts (artifact path, rendered status) from `dud status` text output.
+// Lines look like "  <path>  <text>" below a "<stage>  stage definition ..." line; only paths
+// without blanks are recognised (the scenarios that use this have such paths).
+func parseHumanStatus(out string) [][2]string {
+	var res [][2]string
+	for _, l := range strings.Split(out, "\n") {
+		if !strings.HasPrefix(l, "  ") {
+			continue
+		}
+		f := strings.Fields(l)
+		if len(f) < 2 {
+			continue
+		}
+		rest := strings.TrimSpace(strings.TrimPrefix(strings.TrimSpace(l), f[0]))
+		res = append(res, [2]string{f[0], rest})
+	}
+	return res
+}
+
 // status --debug JSON -> model status trees
 type jsonStatus struct {
 	Checksum            string                 `json:"checksum"`
@@ -622,6 +641,7 @@ type Transition struct {
 	Ref   *Node
 	Specs []int
 	Obs   []int
+	Text  [][2]string
 	Info  map[string]interface{}
 	Res   runRes
 }
@@ -647,7 +667,11 @@ func (t *Transition) coq() string {
 	for i, s := range t.Obs {
 		ob[i] = fmt.Sprint(s)
 	}
-	return fmt.Sprintf("mkT %d %s\n (%s)\n (%s) %s\n (%s)\n (%s) (%s) %s %s", t.ID, clist(sems), t.Pre.coq(), t.Cmd.coq(), cbool(t.OK), t.Post.coq(), out, ref, clist(sp), clist(ob))
+	tx := make([]string, len(t.Text))
+	for i, pt := range t.Text {
+		tx[i] = "(" + cxs(pt[0]) + ", " + cxs(pt[1]) + ")"
+	}
+	return fmt.Sprintf("mkT %d %s\n (%s)\n (%s) %s\n (%s)\n (%s) (%s) %s %s %s", t.ID, clist(sems), t.Pre.coq(), t.Cmd.coq(), cbool(t.OK), t.Post.coq(), out, ref, clist(sp), clist(ob), clist(tx))
 }
 
 // do runs one dud command and records the transition.
